@@ -269,6 +269,14 @@ def run(ctx, rep, model=True):
             spec["ghost_line"] = "(" + ",".join(["1", "1", "0"][: spec["ndims"]]) + ")"; rep.count("ghost-line-per-direction")
         elif i % 4 == 3:
             spec["ghost_line"] = "2"
+        if i % 7 == 6:
+            # the stated domain bound lies one unit in the last place below the upper face the writer computed for the last box
+            got = [plotgen.ulp_above(spec["grid0"][d]) for d in range(spec["ndims"])]
+            if any(g is not None for g in got):
+                for d, g in enumerate(got):
+                    if g is not None:
+                        spec["geo_low"][d], spec["dx0"][d] = g
+                spec["nominal_hi"] = "below"; rep.count("box-face-one-ulp-above-the-stated-domain-bound")
         run_spec(ctx, rep, spec, model)
         if i % 6 == 5:
             other = plotgen.random_spec(ctx.rng, ndims=spec["ndims"], nlev=[2, 3, 1][i % 3], nf=len(spec["fields"]), data="smallint", B=2)
